@@ -33,6 +33,8 @@ def scenarios(ctx):
                                                    members=[dict(topics=["t"], assignors=["range"]), dict(topics=["t"], assignors=["range"], start=0.2)],
                                                    **tail), [{"r": 1}] if quick else [{"r": 1}, {"f": 1}, {"p": 1}]))
     out.append(("batch-polls",gc.two_members(errs=e, poll_max_records=None, feed=[0.2, 8], **tail), Q))
+    # a member killed between any two loop iterations (not only when every task is waiting)
+    out.append(("kill-mid-cascade", gc.two_members(errs=e, k_mid=True, coord_move=False, explore_until=1.8 if quick else 2.6, **tail), [{"k": 1}]))
     if not quick:
         out.append(("three", gc.two_members(errs=e, topics={"t": 3}, members=[dict(topics=["t"], assignors=["roundrobin"]),
                                                                               dict(topics=["t"], assignors=["roundrobin"], start=0.6),
